@@ -146,6 +146,9 @@ def records(res, sem, ref_outs):
     w1 = mrp_writer(evs_)
     cut = next((i for i, e in enumerate(evs_) if e.get("ev") == "Interrupted"), len(evs_))
     last_mrp = max([i for i, e in enumerate(evs_[:cut]) if e.get("w") == w1] or [cut])
+    # (such a job may or may not run again, depending on whether mrp had got as far as removing
+    # its "queued" sentinel: it counts as killed if it does run again, as complete if not)
+    rerun_after = {e.get("job") for e in evs_[cut:] if e.get("ev") == "StageBegin"}
     for idx_, e in enumerate(res["events"]):
         ev = e.get("ev")
         if ev == "StageBegin":
@@ -161,8 +164,8 @@ def records(res, sem, ref_outs):
             rel = os.path.relpath(e["md"], os.path.join(os.path.dirname(e["md"].split("/ps/")[0] + "/ps/"), "")) \
                 if False else e["md"].split("/ps/", 1)[-1]
             j = md2job.get(rel)
-            if j and phase == 0 and idx_ > last_mrp and res.get("sig") == "SIGKILL":
-                continue        # (finished after mrp was gone)
+            if j and phase == 0 and idx_ > last_mrp and res.get("sig") == "SIGKILL" and j in rerun_after:
+                continue        # (finished after mrp was gone, and is run again)
             if j:
                 recorded.add(j)
                 out.append(psprops.rec(ev="StageEnd", job=j, outcome="ok"))
